@@ -300,7 +300,7 @@ def load_known():
 
 def case_signature(case):
     """what identifies a failing Layout case: canonical input + the options that reach the library"""
-    keys = ["n", "edges", "names", "p1", "p2", "p3", "p4", "p5", "ns", "nsd", "ls", "fixed", "smap", "virt", "bkl", "oo", "thor", "mon", "sc", "bad",
+    keys = ["n", "edges", "names", "p1", "p2", "p3", "p4", "p5", "ns", "nsd", "sden", "ls", "fixed", "smap", "virt", "bkl", "oo", "thor", "mon", "sc", "bad",
             "rel", "part"]
     return {k: case[k] for k in keys if k in case and case[k] not in ("", [], None)}
 
